@@ -663,7 +663,9 @@ int64_t evaluate_array_ref(
     }
 
     // 配列参照の解決（配列が参照として渡された場合）
-    if (var->is_reference && var->is_array) {
+    // (a string& reference is resolved the same way: r[i] reads a character
+    // of the referenced string, the reference has no text of its own)
+    if (var->is_reference && (var->is_array || var->type == TYPE_STRING)) {
         var = reinterpret_cast<Variable *>(var->value);
         if (!var) {
             throw std::runtime_error("Invalid array reference: " + array_name);
